@@ -1319,10 +1319,10 @@ fn show_pobs(o: &PObs) -> String {
 }
 fn parse_label(l: &str) -> Option<(u32, usize)> { for (t, pre) in [(0usize, "a-"), (1, "r-"), (2, "IP-")] { if let Some(r) = l.strip_prefix(pre) { return Some((r.parse().ok()?, t)); } } None }
 
-async fn run_bmp(cfg0: &PCfg, evs: &[PEv]) -> (Vec<PObs>, bool, bool) {
+async fn run_bmp(cfg0: &PCfg, evs: &[PEv]) -> (Vec<PObs>, bool, bool, Option<(u32, u32)>) {
     use rotonda::verif::reconfunits as rh;
     let ports = [free_port(), free_port(), free_port()];
-    let Ok(unit) = rh::bmp::parse_unit(&bmp_toml(cfg0, &ports)) else { return (vec![], false, true) };
+    let Ok(unit) = rh::bmp::parse_unit(&bmp_toml(cfg0, &ports)) else { return (vec![], false, true, None) };
     let resources = rotonda::verif::http::Resources::default();
     let metrics = rotonda::verif::http::MetricsCollection::default();
     let tracer = Arc::new(rh::Tracer::new());
@@ -1339,9 +1339,9 @@ async fn run_bmp(cfg0: &PCfg, evs: &[PEv]) -> (Vec<PObs>, bool, bool) {
     let task = tokio::spawn(rh::bmp::run_probed(unit, comp, gate, wp, ptx));
     let _ = down.connect(false).await;
     coord.wait(|_, _| {}).await;
-    let Ok(Ok(probes)) = tokio::time::timeout(Duration::from_secs(4), prx).await else { task.abort(); return (vec![], false, true) };
+    let Ok(Ok(probes)) = tokio::time::timeout(Duration::from_secs(4), prx).await else { task.abort(); return (vec![], false, true, None) };
     let mut downs = vec![down];
-    if !wait_until(Duration::from_millis(2500), || listening(&ports).contains(&(cfg0.listen as usize % 3))).await { task.abort(); return (vec![], false, true); }
+    if !wait_until(Duration::from_millis(2500), || listening(&ports).contains(&(cfg0.listen as usize % 3))).await { task.abort(); return (vec![], false, true, None); }
     let mut cur = *cfg0;
     let mut nreload = 0usize;
     let mut conns: Vec<Option<TcpStream>> = vec![];
@@ -1392,7 +1392,7 @@ async fn run_bmp(cfg0: &PCfg, evs: &[PEv]) -> (Vec<PObs>, bool, bool) {
                 _ => "nc".into(),
             },
             PEv::Reload(new) => {
-                let Ok(parsed) = rh::bmp::parse_unit(&bmp_toml(new, &ports)) else { return (obs, false, true) };
+                let Ok(parsed) = rh::bmp::parse_unit(&bmp_toml(new, &ports)) else { return (obs, false, true, None) };
                 let (new_gate, mut new_agent) = Gate::new(8);
                 let mut l = new_agent.create_link();
                 l.set_direct_update_target(target.clone());
@@ -1440,23 +1440,43 @@ async fn run_bmp(cfg0: &PCfg, evs: &[PEv]) -> (Vec<PObs>, bool, bool) {
         obs.push(PObs { tok, listening: listening(&ports), list_at, info_at, labels, stored });
     }
     let died = task.is_finished();
+    // C14, after the history (nothing of it is in the tokens): the first router that was accepted leaves, if it is still
+    // there, and comes back from the same address to whatever the unit listens on now. The unit has run throughout, so
+    // it is the same source, whatever was reloaded or re-bound in between.
+    let mut revisit: Option<(u32, u32)> = None;
+    let first_ok = obs.iter().zip(evs.iter()).filter(|(_, e)| matches!(e, PEv::Conn(_))).enumerate().find_map(|(k, (o, _)): (usize, (&PObs, &PEv))| o.tok.strip_prefix("ok").and_then(|x| x.parse::<u32>().ok()).map(|id| (k, id)));
+    if let (false, Some((k0, id0))) = (died, first_ok) {
+        if let Some(c) = conns.get_mut(k0) { if let Some(mut s) = c.take() { let n0 = probes.routers().len(); let _ = s.shutdown().await; drop(s); wait_until(Duration::from_secs(4), || probes.routers().len() < n0).await; } }
+        if let Some(slot) = listening(&ports).first().copied() {
+            let sock = TcpSocket::new_v4().unwrap();
+            let _ = sock.set_reuseaddr(true);
+            let before = probes.routers();
+            let n0 = before.len();
+            let res = match sock.bind(SocketAddr::from((Ipv4Addr::new(127, 3, (k0 / 200) as u8, 1 + (k0 % 200) as u8), 0))) { Err(_) => None, Ok(()) => tokio::time::timeout(Duration::from_secs(2), sock.connect(SocketAddr::from(([127, 0, 0, 1], ports[slot])))).await.ok().and_then(|r| r.ok()) };
+            if let Some(s) = res {
+                if wait_until(Duration::from_secs(4), || probes.routers().len() > n0).await { if let Some(id1) = probes.routers().into_iter().find(|r| !before.contains(r)) { revisit = Some((id0, id1)); } }
+                drop(s);
+            }
+        }
+    }
     agent.terminate().await;
     wait_until(Duration::from_secs(2), || task.is_finished()).await;
     task.abort();
     drop(conns);
     drop(downs);
-    (obs, died, false)
+    (obs, died, false, revisit)
 }
 
 fn bmp_case(cfg0: &PCfg, evs: &[PEv]) -> Outcome {
     let tname = format!("reconfunits-{}", CASE_NO.fetch_add(1, std::sync::atomic::Ordering::SeqCst));
     let rt = tokio::runtime::Builder::new_multi_thread().worker_threads(2).thread_name(tname.clone()).enable_all().build().unwrap();
-    let (obs, died, discard) = rt.block_on(run_bmp(cfg0, evs));
+    let (obs, died, discard, revisit) = rt.block_on(run_bmp(cfg0, evs));
     rt.shutdown_timeout(Duration::from_millis(200));
     let panics = take_panics(&tname);
     let mut fails: Vec<String> = vec![];
     let mut notes: Vec<String> = vec![];
     if died || !panics.is_empty() { fails.push(format!("reconf:bmp-tcp-in:unit-task-ended {}", panics.join(";").replace(' ', "_"))); }
+    if let Some((a, b)) = revisit { if a != b { fails.push(format!("ingress:router-id-changed-while-unit-runs the router that was {a} left and came back from the same address as {b}")); } else { notes.push("revisit-same-id".into()); } }
     // ---- reference: after a Reconfigure has been handled everything is judged by the new configuration, sessions stay
     let mut cur = *cfg0;
     let mut live: Vec<(usize, u32)> = vec![]; // (connection, ingress id)
@@ -1621,9 +1641,12 @@ fn main() {
         rec.finish(&args, t0.elapsed().as_secs_f64());
         return;
     }
-    for o in wouts { record(&mut rec, o); }
+    let only_bmp = args.rest.iter().any(|a| a == "--only-bmp");
+    for o in wouts { if !only_bmp || o.case.starts_with("B|") { record(&mut rec, o); } }
+    if !only_bmp {
     record(&mut rec, filter_case(&XCfg { name: 1, sources: vec![0, 1] }, &[XEv::Eos(0, 5), XEv::Eos(2, 6), XEv::Reload(true, XCfg { name: 2, sources: vec![1, 2] }), XEv::Eos(0, 7), XEv::Eos(2, 8), XEv::Reload(false, XCfg { name: 2, sources: vec![1, 2] }), XEv::Eos(1, 9)]));
     record(&mut rec, null_case(&[0, 2], &[NEv::Report, NEv::Reload(vec![1]), NEv::Report, NEv::Reload(vec![1])]));
+    }
     // bmp-tcp-in: one reload per subset of the five settings (all 32), eight at a time
     {
         let mut g = Rng::new(args.seed.wrapping_mul(77).wrapping_add(5));
@@ -1635,6 +1658,7 @@ fn main() {
     }
     // ---- generated histories
     let budget = std::env::var("VERIF_BUDGET").ok().and_then(|b| b.parse().ok()).map(Duration::from_secs).unwrap_or(if args.thorough { Duration::from_secs(200) } else { Duration::from_secs(22) });
+    let budget = if only_bmp { budget / 2 } else { budget };
     let seed = args.seed;
     let nthreads = 8usize;
     let cheap_cap = if args.thorough { 4000usize } else { 400 };
@@ -1643,7 +1667,8 @@ fn main() {
             let mut g = Rng::new(seed.wrapping_mul(1000).wrapping_add(ti as u64 + 1));
             let mut outs = vec![];
             while t0.elapsed() < budget {
-                if ti < 6 { let (c, e) = gen_bgp(&mut g); outs.push(bgp_case(flags, &c, &e)); }
+                if only_bmp { if ti < 4 { let (c, e) = gen_bmp(&mut g); outs.push(bmp_case(&c, &e)); } else { break; } }
+                else if ti < 6 { let (c, e) = gen_bgp(&mut g); outs.push(bgp_case(flags, &c, &e)); }
                 else if ti == 6 { let (c, e) = gen_bmp(&mut g); outs.push(bmp_case(&c, &e)); }
                 else {
                     // one thread for the three cheap component types; the counts are capped so that they do not crowd out the bgp cases
